@@ -212,7 +212,9 @@ func updateRegex(filePath string, ruleId string, chainOffset uint8, newRegex str
 	if len(found) == 0 {
 		logger.Fatal().Msgf("Failed to find rule %s in %s", ruleId, filePath)
 	}
-	updatedLine := found[0][1] + newRegex + found[0][3]
+	// keep whatever follows the continuation backslash (carriage return, blanks)
+	rest := string(regexLine)[regex.RuleRxRegex.FindStringIndex(string(regexLine))[1]:]
+	updatedLine := found[0][1] + newRegex + found[0][3] + rest
 	lines[index] = []byte(updatedLine)
 
 	err = os.WriteFile(filePath, bytes.Join(lines, []byte("\n")), fs.ModePerm)
